@@ -394,9 +394,25 @@ impl<'c, W: WorldDriver> Session<'c, W> {
         } else {
             // make sure worlds are dropped before the registry is reset by the next case;
             // a corrupted world may panic or double drop here, which must not escape
+            let mut drop_panic: Option<String> = None;
             while let Some(sim) = s.sims.pop() {
                 let Sim { w, .. } = sim;
-                let _ = catch(move || drop(w));
+                if let Err(m) = catch(move || drop(w)) {
+                    drop_panic = Some(m);
+                }
+            }
+            // Conservation needs no model: once every world is gone, every tracked component ever
+            // moved into one must have been dropped exactly once (C04). Judged here too, so that a
+            // corruption first noticed by another oracle still reaches the drop accounting (not
+            // after an unwinding, where leaks are tolerated, nor with an injection still armed).
+            if !s.post_panic && cfg.inject.is_none() {
+                if let Err(mut f) = s.check_registry() {
+                    if let Some(m) = drop_panic {
+                        f.msg = format!("{} (dropping a world panicked: {})", f.msg, m);
+                    }
+                    f.msg = format!("after the failing step, with every world dropped: {}", f.msg);
+                    result = Err(Fail::merge(vec![result.unwrap_err(), f]));
+                }
             }
         }
         out.fail = result.err();
@@ -512,9 +528,19 @@ impl<'c, W: WorldDriver> Session<'c, W> {
                 }
                 self.do_xiterate(si, pick(q, self.xq.len()), borrow & 1 == 1, brk)
             }
-            Op::CloneWorld { sim } => {
+            Op::Prefill { sim, arch, k } => {
                 let si = self.sim_ix(sim);
-                self.do_clone(si)
+                self.do_prefill(si, pick(arch, narch), k as usize * 1024)
+            }
+            Op::CloneWorld { sim, into } => {
+                let si = self.sim_ix(sim);
+                if into > 0 && self.sims.len() >= 2 {
+                    let di = pick(into - 1, self.sims.len());
+                    if di != si {
+                        return self.do_clone_into(si, Some(di));
+                    }
+                }
+                self.do_clone_into(si, None)
             }
             Op::Swap { a, b } => {
                 let (x, y) = (pick(a, self.sims.len()), pick(b, self.sims.len()));
@@ -691,6 +717,45 @@ impl<'c, W: WorldDriver> Session<'c, W> {
                 Ok(false)
             }
         }
+    }
+
+    /// Many creations through the plain world-level create, with the model kept in step but without
+    /// the per-creation scans (`==` against all earlier handles) that would make this quadratic.
+    pub fn do_prefill(&mut self, si: usize, a: usize, n: usize) -> R {
+        let ncols = self.infos[a].ncols();
+        for _ in 0..n {
+            let uid = self.next_uid;
+            self.next_uid += 1;
+            let vals: Vec<u64> = (0..ncols).map(|c| stamp(uid, c, 0)).collect();
+            let mvals = self.masked(a, &vals);
+            let r = catch(|| W::create(&mut self.sims[si].w, a, CreatePath::WCreate, &vals));
+            let (raw, trk) = match r {
+                Ok(CreateOut::Created { raw, trk }) => (raw, trk),
+                Ok(CreateOut::Full { .. }) => return Err(self.fail(&["C12"], "harness-full-from-create", "harness bug: plain create reported Full".into())),
+                Err(m) => return Err(self.fail(&["C12"], "create-panic", format!("create on {} (len {}) panicked: {}", self.infos[a].name, self.sims[si].archs[a].live.len(), m))),
+            };
+            if raw_arch_id(raw) != self.infos[a].id {
+                return Err(self.fail(&["C14", "C08"], "create-wrong-arch-id", format!("handle {:?} created by {} (id {}) carries archetype id {}", raw, self.infos[a].name, self.infos[a].id, raw_arch_id(raw))));
+            }
+            let m = &mut self.sims[si].archs[a];
+            if !m.issued.insert(raw) {
+                return Err(self.fail(&["C08", "C01"], "handle-reissued", format!("create on {} returned handle {:?} which this world already issued earlier", self.infos[a].name, raw)));
+            }
+            m.live.insert(raw, MEntity { uid, vals: mvals, trk, writes: 0 });
+            m.creations += 1;
+            m.created_log.push(raw);
+            m.max_gen_seen = m.max_gen_seen.max(raw.1);
+            m.last_gen.insert(raw_slot(raw), raw.1);
+            self.sims[si].handles.push(HandleRec { raw, arch: a, uid });
+        }
+        self.growth_ok.insert((si, a));
+        self.sims[si].ops_since_split += 1;
+        self.sims[si].created_since_split += n as u32;
+        if self.sims[si].archs[a].live.len() > 65536 {
+            self.label("archetype_beyond_16_bit_indices");
+        }
+        self.count("creates", n as u64);
+        Ok(())
     }
 
     pub fn do_refill(&mut self, si: usize, a: usize, path: u8) -> R {
@@ -1521,7 +1586,26 @@ impl<'c, W: WorldDriver> Session<'c, W> {
     }
 
     pub fn do_clone(&mut self, si: usize) -> R {
-        if self.sims.len() >= self.cfg.max_sims {
+        self.do_clone_into(si, None)
+    }
+
+    /// `into == None`: `let w2 = world.clone()`. `into == Some(di)`: `sims[di].w.clone_from(&world)`:
+    /// everything the destination owned must be dropped exactly once (the registry check after the
+    /// step sees a leak, the registry itself a double drop) and the destination then answers like
+    /// the source. Nothing is demanded of the destination's capacity or internal bookkeeping beyond
+    /// what the model-based probes see (an in-place `clone_from` may legitimately keep a larger
+    /// allocation).
+    pub fn do_clone_into(&mut self, si: usize, into: Option<usize>) -> R {
+        let what = if into.is_some() { "dst.clone_from(&world)" } else { "world.clone()" };
+        let mut si = si;
+        let mut dst: Option<W> = None;
+        if let Some(di) = into {
+            let Sim { w, .. } = self.sims.remove(di);
+            if si > di {
+                si -= 1;
+            }
+            dst = Some(w);
+        } else if self.sims.len() >= self.cfg.max_sims {
             let last = self.sims.len() - 1;
             if last == si {
                 return Ok(());
@@ -1532,7 +1616,25 @@ impl<'c, W: WorldDriver> Session<'c, W> {
             r.clone_log.clear();
             (r.zst_clones, r.tok_clones)
         });
-        let r = catch(|| self.sims[si].w.clone_world());
+        let r = match dst {
+            Some(mut d) => {
+                let r = catch(|| d.clone_from_world(&self.sims[si].w));
+                match r {
+                    Ok(()) => Ok(d),
+                    Err(m) => {
+                        // the destination is in an unspecified but safe state: it must be droppable
+                        let r2 = catch(move || drop(d));
+                        if let Err(m2) = r2 {
+                            if !m2.contains(comps::INJECTED) {
+                                return Err(self.fail(&["C10"], "clone-from-then-drop-panic", format!("dropping the destination of a clone_from that unwound panicked: {}", m2)));
+                            }
+                        }
+                        Err(m)
+                    }
+                }
+            }
+            None => catch(|| self.sims[si].w.clone_world()),
+        };
         let w2 = match r {
             Ok(w) => w,
             Err(m) => {
@@ -1540,7 +1642,7 @@ impl<'c, W: WorldDriver> Session<'c, W> {
                     self.note_unwound();
                     return Ok(());
                 }
-                return Err(self.fail(&["C13"], "clone-panic", format!("world.clone() panicked with no borrow outstanding: {}", m)));
+                return Err(self.fail(&["C13"], "clone-panic", format!("{} panicked with no borrow outstanding: {}", what, m)));
             }
         };
         let log: Vec<(u64, u64)> = reg(|r| std::mem::take(&mut r.clone_log));
@@ -1550,7 +1652,7 @@ impl<'c, W: WorldDriver> Session<'c, W> {
             if map.insert(*src, *new).is_some() {
                 // keep the world alive in no model: it is dropped right here
                 drop(w2);
-                return Err(self.fail(&["C04", "C13"], "clone-cloned-twice", format!("world.clone() cloned tracked component instance {} more than once", src)));
+                return Err(self.fail(&["C04", "C13"], "clone-cloned-twice", format!("{} cloned tracked component instance {} more than once", what, src)));
             }
         }
         let mut archs = self.sims[si].archs.clone();
@@ -1567,7 +1669,7 @@ impl<'c, W: WorldDriver> Session<'c, W> {
                             None => {
                                 let id = *t;
                                 drop(w2);
-                                return Err(self.fail(&["C04", "C13"], "clone-missed-component", format!("world.clone() did not clone live tracked component instance {}", id)));
+                                return Err(self.fail(&["C04", "C13"], "clone-missed-component", format!("{} did not clone live tracked component instance {}", what, id)));
                             }
                         }
                     }
@@ -1576,12 +1678,12 @@ impl<'c, W: WorldDriver> Session<'c, W> {
         }
         if log.len() != live_tracked || (zc1 - zc0) as usize != zst_expected {
             drop(w2);
-            return Err(self.fail(&["C04", "C13"], "clone-count", format!("world.clone() made {} clones of tracked components ({} of the zero-sized one), expected {} ({})", log.len(), zc1 - zc0, live_tracked, zst_expected)));
+            return Err(self.fail(&["C04", "C13"], "clone-count", format!("{} made {} clones of tracked components ({} of the zero-sized one), expected {} ({})", what, log.len(), zc1 - zc0, live_tracked, zst_expected)));
         }
         let tok_expected: usize = self.sims[si].archs.iter().enumerate().map(|(a, m)| m.live.len() * self.infos[a].tok_cols).sum();
         if (tc1 - tc0) as usize != tok_expected {
             drop(w2);
-            return Err(self.fail(&["C04", "C13"], "clone-count-no-drop-glue", format!("world.clone() called Clone::clone {} times on the components without drop glue (Tok), expected exactly once per live component = {}", tc1 - tc0, tok_expected)));
+            return Err(self.fail(&["C04", "C13"], "clone-count-no-drop-glue", format!("{} called Clone::clone {} times on the components without drop glue (Tok), expected exactly once per live component = {}", what, tc1 - tc0, tok_expected)));
         }
         if live_tracked + zst_expected + tok_expected > 0 {
             self.label("clone_with_live_tracked");
@@ -1612,7 +1714,7 @@ impl<'c, W: WorldDriver> Session<'c, W> {
         self.sims[si].ops_since_split = 0;
         self.sims.push(new_sim);
         let ni = self.sims.len() - 1;
-        self.label("clone");
+        self.label(if into.is_some() { "clone_from" } else { "clone" });
         if mid_free {
             self.label("clone_with_mid_free_slot");
         }
@@ -1623,13 +1725,13 @@ impl<'c, W: WorldDriver> Session<'c, W> {
         for a in 0..self.infos.len() {
             let (l1, c1) = (W::len(&self.sims[si].w, a), W::capacity(&self.sims[si].w, a));
             let (l2, c2) = (W::len(&self.sims[ni].w, a), W::capacity(&self.sims[ni].w, a));
-            if l1 != l2 || c1 != c2 {
+            if l1 != l2 || (c1 != c2 && into.is_none()) || c2 < l2 {
                 return Err(self.fail(&["C13"], "clone-len-capacity", format!("clone of {} has len {} capacity {}, original has len {} capacity {}", self.infos[a].name, l2, c2, l1, c1)));
             }
         }
         for a in 0..self.infos.len() {
             let (d1, d2) = (W::dump(&self.sims[si].w, a), W::dump(&self.sims[ni].w, a));
-            if d1 != d2 {
+            if d1 != d2 && into.is_none() {
                 let f = (self.fail(&["C13"], "clone-bookkeeping", format!("clone of {} does not carry the original's bookkeeping (generations, free list, version): original version {} free_head {:#x} slots {:x?}; clone version {} free_head {:#x} slots {:x?}", self.infos[a].name, d1.version, d1.free_head, &d1.slots[..d1.slots.len().min(16)], d2.version, d2.free_head, &d2.slots[..d2.slots.len().min(16)])));
                 if self.deferred.is_empty() {
                     self.deferred.push(f);
@@ -1646,7 +1748,7 @@ impl<'c, W: WorldDriver> Session<'c, W> {
         // behavioural twin step (every other clone): two observationally identical worlds must
         // answer the same operation identically; here: a creation in the same archetype returns
         // the same handle in the original and in the clone
-        if self.step % 2 == 0 {
+        if self.step % 2 == 0 && into.is_none() {
             let a = self.step % self.infos.len();
             let n1 = self.sims[si].handles.len();
             let n2 = self.sims[ni].handles.len();
